@@ -28,6 +28,7 @@ from runner import Infra, TieBroken
 ID = "C18"
 LEAN_MODULES = ["PyYetiVerif.Props.C18", "PyYetiVerif.Props.C18Up", "PyYetiVerif.Props.C18Idx", "PyYetiVerif.Props.C18Xyz",
                 "PyYetiVerif.Props.C18Tran", "PyYetiVerif.Props.C18Ulvs", "PyYetiVerif.Props.C18Prt", "PyYetiVerif.Props.C18Cyc",
+                "PyYetiVerif.Props.C18Tran0", "PyYetiVerif.Props.C18TranM",
                 "PyYetiVerif.Audit.C18"]
 AUDIT_FILE = "PyYetiVerif/Audit/C18.lean"
 THEOREMS = [
@@ -35,7 +36,7 @@ THEOREMS = [
     for n in (
         "base_sets_disjoint superset_is_union superset_is_union_bitwise user_sets_separate inSet_subword table_partition mksetpv_refuses_iff mksetpv_spec mksetpv_named expanddof_digits expanddof2_spec lookup_sound lookup_complete mkdofpv_strict_iff mkdofpv_spec mkdofpv_positions mkdofpv_set mat_intersect_spec find_subseq_spec list_intersect_spec flippv_spec index2bool_spec normIndex_spec find_vals_spec find_rows_spec find_unique_spec find_duplicates_spec index2slice_cases index2slice_spec merge_lists_spec merge_lists_inserts mkusetmask_plus mksetpv_plus make_uset_sets make_uset_accepts make_uset_sets_partial make_uset_split_rows make_uset_ids make_uset_coords_partial upasetpv_spec scatter_spec upqsetpv_length upqsetpv_one_upstream qupOwn_spec "
         "upqsetpv_fuel_stable upqsetpv_fuel_suffices upqsetpv_cycle_diverges cyclic_not_acyclic QConn_iff upqsetpv_spec canFlag_of_flagged separate_of_check upqIdx_eq_upasetpv upasetpv_perm mat_intersect_order mat_intersect_keep1 mat_intersect_keep2 mat_intersect_keep0 mat_intersect_keep_other findse_spec findse_find? nodeIds_spec nodeIds_make xyz_triple_exact find_xyz_triples_exact "
-        "formtran_partition_identity formtran_aset_identity formtran_columns_are_target_set ulvsPath_spec ulvsLoop_chain formulvs_chain_is_product formulvs_noshortcut formulvs_cases formdrm_is_rows_of_formtran formdrm_same_se addulvs_consistent memberCol_spec usetprt_table_is_partition_listing mask_expression_is_union mask_expression_members mask_expression_append mask_expression_absorbs mkdofpv_expression find_subseq_mem_iff find_subseq_errors find_rows_other_length mat_intersect_duplicates index_helpers_refuse_together upqsetpv_never_returns_of_progress upqsetpv_cyclic_diverges"
+        "formtran_partition_identity formtran_aset_identity formtran_columns_are_target_set ulvsPath_spec ulvsLoop_chain formulvs_chain_is_product formulvs_noshortcut formulvs_cases formdrm_is_rows_of_formtran formdrm_same_se addulvs_consistent memberCol_spec usetprt_table_is_partition_listing mask_expression_is_union mask_expression_members mask_expression_append mask_expression_absorbs mkdofpv_expression find_subseq_mem_iff find_subseq_errors find_rows_other_length mat_intersect_duplicates index_helpers_refuse_together upqsetpv_never_returns_of_progress upqsetpv_cyclic_diverges formtran0_gset formtran0_gset_repeated formtran0_phg formtran0_pha formtran_mset_composition"
     ).split()
 ]
 TRUSTED = [
@@ -134,15 +135,16 @@ PARTIAL = (
     "row is marked, with the node's location and scale); on inexact data (entries within the tolerances, rotation rows, "
     "missing rows - the documented way the routine can be tricked) it is tied by the correspondence only, inputs with a "
     "comparison within 1e-9 of its threshold or with a singular window of equal column norms are skipped and counted, "
-    "and cond(T1) > 1/eps is modelled as det T1 = 0. Matrix routines: formtran (se != 0) is proved row by row for the "
-    "t-, q-, o- and s-set (formtran_partition_identity, formtran_aset_identity) but for an m-set DOF only that its row "
-    "is a row of the m-set block of the right width - that this block equals GM composed with the rows of the n-set "
-    "(`composition = direct transform`, incl. the `np.any(gmo, 0)` column pruning) is tied by the oracle's physical "
-    "reference and the correspondence, not proved; _formtran_0 (residual: gset / phg / pha branches) is modelled and "
-    "tied, only its final re-ordering step is covered by a theorem (reorder_spec); the rows picked by "
-    "`iddof[<positions within the g-set>]` are table rows only when every row of the table is in the g-set (no extra "
-    "points) - the theorems state the code's indexing literally, and the residual with an extra point in front of "
-    "a-set DOF is reported as finding formtran-se0-pha-extra-point-rows; a DOF named twice with gset=True is finding "
+    "and cond(T1) > 1/eps is modelled as det T1 = 0. Matrix routines: formtran is proved row by row - se != 0: t-, q-, o-, "
+    "s-set rows for any ring-like entry type (formtran_partition_identity, formtran_aset_identity), m-set rows in closed "
+    "form over a semiring (formtran_mset_composition: GM composed with the n-set rows, the np.any(gmo, 0) pruning "
+    "shown irrelevant) under the hypotheses that no DOF is in the t- and the q-set at once and that got / goq rows have "
+    "their declared width; residual: formtran0_gset (for requests without a repeated DOF), formtran0_phg, "
+    "formtran0_pha (a-set rows = pha rows, s-set rows zero, m-set rows only located in `gm[:, a_n] @ pha`, not expanded). "
+    "The rows picked by `iddof[<positions within the g-set>]` are table rows only when every row of the table is in the "
+    "g-set (no extra points): the theorems state the code's indexing literally, and the residual with an extra point "
+    "in front of a-set DOF is reported as finding formtran-se0-pha-extra-point-rows; a DOF named twice with gset=True "
+    "(pvdof not Nodup; formtran0_gset_repeated is the smallest instance) is finding "
     "formtran-se0-gset-repeated-dof. formulvs / formdrm / addulvs are proved as products / rows / stored entries of "
     "formtran levels (formulvs_chain_is_product: left-to-right product along the tree path; associativity of the list "
     "matrix product, i.e. ULVS(a->c) = ULVS(a->b) ULVS(b->c), is checked by the oracle only). usetprt: the returned "
@@ -164,8 +166,8 @@ MANIFEST = {
     "upasetpv with a permutation map is a permutation of the boundary rows; _findse, _get_node_ids; find_xyz_triples "
     "finds every node of a matrix of exact triples (location and scale); formtran (se != 0): one row per requested "
     "DOF in request order, unit vector at the a-set column for t- and q-set DOF, stored got / goq row scattered to the "
-    "t- and q-columns for o-set DOF, zero for s-set DOF, columns = the a-set (any ring of entries, any linear order of "
-    "the [id, dof] rows); formulvs = left-to-right product of the per-level formtran matrices along the tree path for "
+    "t- and q-columns for o-set DOF, zero for s-set DOF, GM composed with the n-set rows for m-set DOF (semiring), "
+    "columns = the a-set (any linear order of the [id, dof] rows); residual: g-set selection / phg rows / pha recovery; formulvs = left-to-right product of the per-level formtran matrices along the tree path for "
     "any depth and any keepcset / shortcut / gset; formdrm = rows of formtran times ULVS; addulvs stores exactly "
     "formulvs; the table of usetprt is the listing of the requested sets (each DOF once, table order, numbered per "
     "set); mkusetmask expressions are unions (idempotent, commutative, associative), mkdofpv on expressions; "
@@ -176,10 +178,9 @@ MANIFEST = {
     "overwriting an earlier flag at a shared place, broadcasting) is tied (correspondence + construction oracle) but "
     "nothing is claimed; make_uset coordinates with split component lists (undocumented) are only modelled; "
     "find_xyz_triples on inexact data (tolerance rule) is tied numerically (exact pv, coordinates / scales to 1e-9) but "
-    "not proved; formtran's m-set rows (GM composed with the n-set rows) and _formtran_0 (residual) are modelled and "
-    "tied (exact correspondence on integer matrices + an oracle that recomputes the displacements from the defining "
-    "relations) but not proved; the printed text of usetprt is not modelled; matrix routines are not compared on the "
-    "(non-integer) nas2cam test files",
+    "not proved; the m-set rows of the residual's pha branch are located, not expanded; associativity of the list matrix "
+    "product (ULVS(a->c) = ULVS(a->b) ULVS(b->c)) is checked by the oracle only; the printed text of usetprt is not "
+    "modelled; matrix routines are not compared on the (non-integer) nas2cam test files",
     "technique": "Lean 4 proof about executable models + ast translator for mkusetmask + exact differential "
     "correspondence + model-free oracle",
 }
